@@ -22,7 +22,7 @@ def make_variant(rng, models):
     for name, samples in models:
         n = len(samples)
         perm = list(range(n))
-        mode = rng.choice(["perm", "perm", "dup", "both", "reverse"])
+        mode = rng.choice(["perm", "perm", "dup", "both", "reverse"] * 3 + ["mass_dup"])
         if mode in ("perm", "both"):
             rng.shuffle(perm)
         elif mode == "reverse":
@@ -33,6 +33,14 @@ def make_variant(rng, models):
             for _ in range(rng.randint(1, 3)):
                 src = rng.randrange(n)
                 pos = rng.randint(0, len(var))
+                var.insert(pos, samples[src])
+                dups.append([pos, src])
+        if mode == "mass_dup" and n:
+            # one sample repeated hundreds of times (beyond any warm-up count, cache or batch size), mostly BEFORE the rest
+            src = rng.randrange(n)
+            count = rng.choice([40, 600, 1100]) if n <= 100 else 3
+            pos = 0 if rng.random() < 0.7 else rng.randint(0, len(var))
+            for _ in range(count):
                 var.insert(pos, samples[src])
                 dups.append([pos, src])
         out.append([name, var])
@@ -62,6 +70,20 @@ def nontrivial(models, plan):
             if any(seeds.digest(a) != seeds.digest(b) for a, b in zip(moved, samples)):
                 return True
     return False
+
+
+def show_plan(plan):
+    """Plan with runs of equal duplications collapsed (600 x [pos, src])."""
+    out = []
+    for p in plan:
+        runs = []
+        for d in p["dups"]:
+            if runs and runs[-1][1] == d:
+                runs[-1][0] += 1
+            else:
+                runs.append([1, d])
+        out.append({"perm": p["perm"], "dups": [d if c == 1 else f"{c} x {d}" for c, d in runs]})
+    return out
 
 
 def differs(a, b):
@@ -156,7 +178,7 @@ def run(ctx):
                     "workload": small, "plan": splan, "variant_models": apply_plan(small["models"], splan),
                     "base_graph": sb["text"]["readable"], "variant_graph": sr["text"]["readable"],
                     "clause": "canonical model graph of permuted/duplicated samples == that of the base list",
-                }, f"plan {splan}: " + describe(sb, sr))
+                }, f"plan {show_plan(splan)}: " + describe(sb, sr))
         glob_stats = glob_channel(ctx, pool, rep, distinct)
     return rep.finish({
         "evaluations": len(jobs) + glob_stats["runs"],
